@@ -83,7 +83,7 @@ def run(ck):
     ck.assumptions = ["nfl::fastrandombytes replaced at link time by a tape reader (lib/prng not linked)", "floor(log2(double)) + 1 modelled by Z.log2 + 1 (checked by the all-ones tapes: the mask is observable)",
                       "bounded sampler: amplifier with A*(B-1) >= p_min is inadmissible (hypothesis of the theorem; the code does not check it)",
                       "Gaussian wrapper: proved (gauss_store_consistent); its correspondence runs in C10/C11's harness", "constants / lists / big integers: C15"]
-    vf.run_deps(ck, ['C15'])
+    vf.run_deps(ck, ['C15', 'C17'])
     return ck.finish(trusted=["coqc 8.16.1 kernel", "extraction + driver.ml", "h_samplers.cpp (scripted tape)", "translator"], extra_cov={"params_sha": info})
 
 def replay(ck, rec):
